@@ -1132,7 +1132,7 @@ fn build_to_index_fn(variants: &[VariantEntry]) -> TokenStream {
 
 fn build_eq_checker(this: TokenStream) -> TokenStream {
     quote_spanned!(this.span()=>{
-        fn _eq<T: ::core::cmp::Eq + ?Sized>(_this: &T) { }
+        fn _eq<T: ::core::cmp::Eq + ?::core::marker::Sized>(_this: &T) { }
         _eq(&(#this))
     })
 }
